@@ -23,7 +23,8 @@ ID = "C18"
 LEVEL = "exploration"
 TECHNIQUE = ("parse of the real text/Markdown renderers' output on a recording console (and of report_command / findings_command "
              "stdout) compared with figures recomputed from the Report objects: overview rows, order, deltas against a previous "
-             "report, findings list, 10-row cut-off and omitted-row count")
+             "report, findings list, 10-row cut-off and omitted-row count; each report pair is rendered repeatedly in alternating "
+             "formats against a pre-render snapshot, and the stored totals are re-read afterwards (rendering must not alter them)")
 RULE = ("one case = (current report, optional previous report) built from random codebases; the previous report is derived from the "
         "current one by edits (files added/removed/changed, languages added/removed) or is unrelated or identical; findings cases "
         "have 0..25 functions longer than 30 lines around the 10-row cut-off, full / not full, with / without repository; both "
@@ -191,15 +192,24 @@ def render_overviews(ctx, case, cur, prev):
     cur_t = totals_of(cur)
     prev_t = totals_of(prev) if prev is not None else None
     parsed = {}
-    for fmt, fn in (("text", format_text.print_totals), ("markdown", format_markdown.print_totals)):
+    # every render is judged against the figures stored BEFORE any rendering; the same in-memory reports are rendered
+    # text, markdown, text, markdown so that a renderer that alters a report (or keeps state between calls) shows up in
+    # a later render of either format, and the stored totals are compared with the snapshot afterwards
+    for nth, (fmt, fn) in enumerate((("text", format_text.print_totals), ("markdown", format_markdown.print_totals)) * 2):
         con = console()
         ctx.eval()
         try:
             fn(con, cur, prev)
         except Exception as e:
-            ctx.violation("render_exception", case, {"format": fmt, "error": f"{type(e).__name__}: {e}", "tb": short_tb(5)})
+            ctx.violation("render_exception", case, {"format": fmt, "render_no": nth, "error": f"{type(e).__name__}: {e}", "tb": short_tb(5)})
             continue
-        parsed[fmt] = check_overview(ctx, case, fmt, con.export_text(), cur_t, prev_t)
+        res = check_overview(ctx, case, fmt, con.export_text(), cur_t, prev_t)
+        parsed.setdefault(fmt, res)
+        if nth >= 2:
+            ctx.count("monitor.overview_rerendered")
+    if totals_of(cur) != cur_t or (prev is not None and totals_of(prev) != prev_t):
+        ctx.violation("render_altered_stored_totals", case, {"current_before": cur_t, "current_after": totals_of(cur),
+                                                            "previous_before": prev_t, "previous_after": totals_of(prev) if prev is not None else None})
     if len(parsed) == 2 and parsed["text"] and parsed["markdown"] and prev_t is not None:
         # the two formats must annotate identically for languages present in both reports and for the totals
         (rt, tt), (rm, tm) = parsed["text"], parsed["markdown"]
